@@ -14,11 +14,24 @@ import (
 )
 
 // capture transport: records every Write; never read from (reader goroutine not started)
-type capture struct{ writes [][]byte }
+// cancel (if set) is called once the cancelAt-th Write since it was armed has been recorded
+type capture struct {
+	writes   [][]byte
+	n        int
+	cancelAt int
+	cancel   context.CancelFunc
+}
 
-func (c *capture) Read(p []byte) (int, error)  { select {} }
-func (c *capture) Write(p []byte) (int, error) { c.writes = append(c.writes, append([]byte{}, p...)); return len(p), nil }
-func (c *capture) Close() error                { return nil }
+func (c *capture) Read(p []byte) (int, error) { select {} }
+func (c *capture) Write(p []byte) (int, error) {
+	c.writes = append(c.writes, append([]byte{}, p...))
+	c.n++
+	if c.cancel != nil && c.n == c.cancelAt {
+		c.cancel()
+	}
+	return len(p), nil
+}
+func (c *capture) Close() error { return nil }
 
 // chunkPkg is a package whose encoding is written in the given WriteBytes calls
 type chunkPkg struct{ chunks [][]byte }
@@ -36,7 +49,7 @@ func (p *chunkPkg) String() string { return "chunkPkg" }
 
 type msg struct {
 	ps, typ int
-	pkgs    [][][]byte // package -> chunks
+	pkgs    [][][]byte    // package -> chunks
 	real    []tds.Package // optional real packages instead (encoding recorded in pkgs as one chunk)
 	mode    int           // 0: Queue...;SendRemaining  1: last package via SendPackage
 }
@@ -110,6 +123,108 @@ func run(out *sx.Out, chanId int, nr0 int, ms []msg, tag string) {
 		res = append(res, ws)
 	}
 	out.Case(1, sx.L{sx.I(int64(chanId)), sx.I(int64(nr0)), in}, res, tag)
+}
+
+// ---- fn 2: histories of calls whose context may be done / get cancelled after k packet writes
+type call struct {
+	kind   int // 0 QueuePackage, 1 SendPackage, 2 SendRemainingPackets
+	budget int // -1 live context; k >= 0: cancelled after the k-th packet write of this call (0: already cancelled)
+	chunks [][]byte
+}
+type seg struct {
+	ps, typ int
+	calls   []call
+}
+
+func doCall(ch *tds.Channel, tr *capture, c call) (failed bool, panicked bool) {
+	defer func() {
+		if r := recover(); r != nil {
+			panicked = true
+		}
+	}()
+	ctx, cancel := context.WithCancel(context.Background())
+	defer cancel()
+	tr.n, tr.cancelAt, tr.cancel = 0, 0, nil
+	if c.budget == 0 {
+		cancel()
+	} else if c.budget > 0 {
+		tr.cancelAt, tr.cancel = c.budget, cancel
+	}
+	defer func() { tr.cancel = nil }()
+	var err error
+	switch c.kind {
+	case 0:
+		err = ch.QueuePackage(ctx, &chunkPkg{c.chunks})
+	case 1:
+		err = ch.SendPackage(ctx, &chunkPkg{c.chunks})
+	default:
+		err = ch.SendRemainingPackets(ctx)
+	}
+	return err != nil, false
+}
+
+func runCalls(out *sx.Out, chanId int, nr0 int, segs []seg, tag string) {
+	tr := &capture{}
+	info := &tds.Info{}
+	info.ChannelPackageQueueSize = 10
+	conn, err := tds.VerifNewConn(context.Background(), info, tr, false)
+	if err != nil {
+		panic(err)
+	}
+	ch, err := conn.NewChannel()
+	if err != nil {
+		panic(err)
+	}
+	if chanId > 0 {
+		ch.VerifSetChannelId(chanId)
+	}
+	ch.VerifSetCurPacketNr(nr0)
+	var in, res sx.L
+	panicked := false
+	for _, g := range segs {
+		var cin, cout sx.L
+		for _, c := range g.calls {
+			cs := sx.L{}
+			for _, b := range c.chunks {
+				cs = append(cs, sx.B(b))
+			}
+			cin = append(cin, sx.L{sx.I(int64(c.kind)), sx.I(int64(c.budget)), cs})
+			if panicked {
+				continue
+			}
+			// the client sets packet size / header type; the header type before every call (reset puts it back to NORMAL)
+			conn.VerifSetPacketSize(g.ps)
+			ch.CurrentHeaderType = tds.PacketHeaderType(g.typ)
+			tr.writes = nil
+			failed, pan := doCall(ch, tr, c)
+			if pan {
+				panicked = true
+				continue
+			}
+			ws := sx.L{}
+			for _, w := range tr.writes {
+				ws = append(ws, sx.B(w))
+			}
+			datas, _, _, _, _ := ch.VerifTxQueue().VerifState()
+			e, p := 0, 0
+			if failed {
+				e = 1
+			}
+			if len(datas) > 0 {
+				p = 1
+			}
+			cout = append(cout, sx.L{ws, sx.I(int64(e)), sx.I(int64(p))})
+		}
+		in = append(in, sx.L{sx.I(int64(g.ps)), sx.I(int64(g.typ)), cin})
+		if cout == nil {
+			cout = sx.L{}
+		}
+		res = append(res, cout)
+	}
+	if panicked {
+		res = sx.L{sx.I(-1)}
+	}
+	out.Case(2, sx.L{sx.I(int64(chanId)), sx.I(int64(nr0)), in}, res, tag)
 }
 
 func splitRandom(rng *sx.Rng, data []byte, parts int) [][]byte {
@@ -280,5 +395,160 @@ func main() {
 			ms = append(ms, msg{ps: ps, typ: types[rng.Intn(len(types))], pkgs: pkgs, mode: rng.Intn(2)})
 		}
 		run(out, chans[rng.Intn(len(chans))], rng.Intn(256), ms, "random-history")
+	}
+
+	// ---- interrupted sends (fn 2)
+	one := func(b []byte) [][]byte { return [][]byte{b} }
+	after := func(si int) seg { // a fault-free message behind every history: nothing of the earlier calls may be left behind
+		ps2 := []int{24, 64, 300}[si%3]
+		return seg{ps: ps2, typ: types[(si+5)%len(types)], calls: []call{
+			{kind: 0, budget: -1, chunks: one(rng.Bytes(rng.Range(1, 2*(ps2-8)+1)))},
+			{kind: 1, budget: -1, chunks: one(rng.Bytes(rng.Range(1, ps2-8)))}}}
+	}
+	ci := 0
+	for si, ps := range sizes {
+		body := ps - 8
+		for kk := 1; kk <= 4; kk++ {
+			for d := -1; d <= 1; d++ {
+				total := kk*body + d
+				if total < 1 {
+					continue
+				}
+				if ps > 5000 && (si >= 14 || kk != 2 || d != (si%3)-1) {
+					continue
+				}
+				if ps > 1024 && kk > 3 {
+					continue
+				}
+				npk := (total + body - 1) / body // packets of the whole message
+				maxb := npk
+				if ps > 5000 {
+					maxb = 1
+				}
+				for k := 0; k <= maxb; k++ {
+					nvar := 5
+					if ps > 300 {
+						nvar = 1
+					}
+					for v := 0; v < nvar; v++ {
+						ci++
+						variant := v
+						if nvar == 1 {
+							variant = ci % 5
+						}
+						data := rng.Bytes(total)
+						typ := types[(si+kk+d+k+8)%len(types)]
+						chanId := chans[(ci+si)%len(chans)]
+						nr0 := []int{0, 250, 255, 254}[(ci+kk)%4]
+						chunks := splitRandom(rng, data, rng.Range(1, 3))
+						more := rng.Bytes(rng.Range(1, body+1))
+						var calls []call
+						switch variant {
+						case 0: // failed QueuePackage, then the flush with a live context
+							calls = []call{{0, k, chunks}, {2, -1, nil}}
+						case 1: // failed QueuePackage, the message goes on
+							calls = []call{{0, k, chunks}, {0, -1, one(more)}, {2, -1, nil}}
+						case 2:
+							calls = []call{{0, k, chunks}, {1, -1, one(more)}}
+						case 3: // SendPackage interrupted in either half; whatever it did, a live flush ends the message
+							calls = []call{{1, k, chunks}, {2, -1, nil}}
+						default: // the flush itself interrupted: message abandoned
+							calls = []call{{0, -1, chunks}, {2, k, nil}, {2, -1, nil}}
+						}
+						runCalls(out, chanId, nr0, []seg{{ps, typ, calls}, after(ci)},
+							fmt.Sprintf("intr-single;v=%d;pk=%d;d=%d;k=%d", variant, kk, d, k))
+					}
+				}
+			}
+		}
+	}
+	// several failed calls in a row; failures in the middle of multi-package messages
+	nrep := 6
+	if thorough {
+		nrep = 60
+	}
+	for _, ps := range []int{9, 10, 16, 24, 255, 256, 257, 512} {
+		body := ps - 8
+		reps := nrep
+		if ps > 100 {
+			reps = nrep / 3
+		}
+		for rep := 0; rep < reps; rep++ {
+			for kk := 1; kk <= 3; kk++ {
+				for d := -1; d <= 1; d++ {
+					ci++
+					ln := func() int { // lengths around the boundaries
+						l := rng.Range(0, kk)*body + rng.Range(-1, 1)
+						if l < 1 {
+							l = rng.Range(1, body+1)
+						}
+						return l
+					}
+					la := kk*body + d
+					if la < 1 {
+						la = 1
+					}
+					a, b, c := rng.Bytes(la), rng.Bytes(ln()), rng.Bytes(ln())
+					typ := types[ci%len(types)]
+					chanId := chans[ci%len(chans)]
+					k1, k2, k3 := rng.Range(0, kk), rng.Range(0, 2), rng.Range(0, 3)
+					// in a row
+					runCalls(out, chanId, rng.Intn(256), []seg{{ps, typ, []call{
+						{0, k1, one(a)}, {0, 0, one(b)}, {0, k2, splitRandom(rng, c, 2)}, {2, -1, nil}}}, after(ci)},
+						fmt.Sprintf("intr-row;d=%d;pk=%d", d, kk))
+					runCalls(out, chanId, rng.Intn(256), []seg{{ps, typ, []call{
+						{0, 0, one(a)}, {0, k2, one(b)}, {1, k3, one(c)}, {2, k1, nil}, {0, -1, one(b)}, {1, -1, one(a)}}}, after(ci)},
+						fmt.Sprintf("intr-row-abandon;d=%d;pk=%d", d, kk))
+					// in the middle
+					runCalls(out, chanId, rng.Intn(256), []seg{{ps, typ, []call{
+						{0, -1, one(b)}, {0, k1, one(a)}, {0, -1, one(c)}, {1, k3, one(b)}, {2, -1, nil}}}, after(ci)},
+						fmt.Sprintf("intr-middle;d=%d;pk=%d", d, kk))
+					runCalls(out, chanId, rng.Intn(256), []seg{{ps, typ, []call{
+						{0, -1, one(a)}, {0, -1, one(b)}, {0, k3, one(c)}, {0, k2, one(a)}, {1, -1, one(c)}}}, after(ci)},
+						fmt.Sprintf("intr-middle;d=%d;pk=%d", d, kk))
+				}
+			}
+		}
+	}
+	// flush of an empty queue with a dead context; failed flush, then nothing is left
+	for _, k := range []int{0, 1} {
+		runCalls(out, 1, 255, []seg{{16, 3, []call{{2, k, nil}, {0, -1, one(rng.Bytes(20))}, {2, 1, nil}, {2, 0, nil}, {2, -1, nil}}}, after(k)}, "intr-empty-flush")
+	}
+	// random call histories
+	nr := 600
+	if thorough {
+		nr = 30000
+	}
+	for c := 0; c < nr; c++ {
+		var segs []seg
+		ns := rng.Range(1, 3)
+		for g := 0; g < ns; g++ {
+			ps := rng.Range(9, 40)
+			if rng.Intn(5) == 0 {
+				ps = rng.Range(200, 600)
+			}
+			body := ps - 8
+			var calls []call
+			ncall := rng.Range(1, 8)
+			for j := 0; j < ncall; j++ {
+				budget := -1
+				if rng.Intn(2) == 0 {
+					budget = rng.Range(0, 4)
+				}
+				n := rng.Range(1, 3*body)
+				if rng.Intn(3) == 0 {
+					n = body*rng.Range(1, 3) + rng.Range(-1, 1)
+				}
+				kind := []int{0, 0, 0, 1, 2}[rng.Intn(5)]
+				cl := call{kind: kind, budget: budget}
+				if kind != 2 {
+					cl.chunks = splitRandom(rng, rng.Bytes(n), rng.Range(1, 3))
+				}
+				calls = append(calls, cl)
+			}
+			calls = append(calls, call{kind: 2, budget: -1})
+			segs = append(segs, seg{ps, types[rng.Intn(len(types))], calls})
+		}
+		runCalls(out, chans[rng.Intn(len(chans))], rng.Intn(256), segs, "intr-random")
 	}
 }
